@@ -58,7 +58,7 @@ def case_strategy(draw, tier):
                            'restart': draw(st.sampled_from([0, 50, 300, 1500, 6000]))})
     return {
         'topo': topo, 'n': n, 'topics': topics,
-        'img': draw(st.sampled_from([None, 'raw', 'jpg', 'gray'])),
+        'img': draw(st.sampled_from([None, 'raw', 'jpg', 'gray', 'fortran', 'strided'])),     # fortran / strided: raw images whose memory is not C-contiguous
         'data': draw(st.sampled_from([None, {'a': [1, 2.5, None, 'x']}, {'u': 'é中', 'big': 2 ** 70}])),
         'outs_jpg': draw(st.sampled_from([None, None, True, False])),
         'sub': draw(sub_spec(topics)),
